@@ -81,6 +81,7 @@ func c04Report(w *run.Worker, d dctx, part string, p *Prog, v Verdict, keyExtra 
 	w.Outcome(v.Outcome)
 	if v.Skipped != "" {
 		w.Note("unspecified_cells_skipped", 1)
+		w.Note("unspecified_cells_skipped:"+part, 1)
 		return
 	}
 	if v.OK {
@@ -539,9 +540,48 @@ func c04LenIn(w *run.Worker, d dctx) {
 	}
 }
 
+// equality matrix: every ordered pair of 21 equality representatives (near
+// misses of each other: sub-/super-maps, prefixes, int vs float, nil-valued
+// keys) as needle and as the only element of the haystack, bare, nested in a
+// list and nested in a map; == and != over the same pairs.
+func c04EqMatrix(w *run.Worker, d dctx) {
+	I, S, Id := rt.Int, rt.Str, rt.Id
+	reps := []nodeFn{
+		func() *rt.Node { return rt.Nil() }, func() *rt.Node { return rt.Bool(true) }, func() *rt.Node { return rt.Bool(false) },
+		func() *rt.Node { return I(0) }, func() *rt.Node { return I(1) }, func() *rt.Node { return rt.Float(1) }, func() *rt.Node { return rt.Float(0) },
+		func() *rt.Node { return S("") }, func() *rt.Node { return S("1") }, func() *rt.Node { return S("a") },
+		func() *rt.Node { return rt.List() }, func() *rt.Node { return rt.List(I(1)) }, func() *rt.Node { return rt.List(I(1), I(2)) }, func() *rt.Node { return rt.List(rt.Float(1)) },
+		func() *rt.Node { return rt.List(rt.List(I(1))) },
+		func() *rt.Node { return rt.Map() }, func() *rt.Node { return rt.Map(S("k"), I(1)) }, func() *rt.Node { return rt.Map(S("k"), I(1), S("j"), I(2)) },
+		func() *rt.Node { return rt.Map(S("k"), rt.Float(1)) }, func() *rt.Node { return rt.Map(S("k"), rt.Nil()) }, func() *rt.Node { return rt.Map(S("j"), I(1)) },
+	}
+	for _, a := range reps {
+		for _, b := range reps {
+			if !w.Take() {
+				continue
+			}
+			stmts := []*rt.Node{rt.Assign("=", Id("a"), a()), rt.Assign("=", Id("b"), b()),
+				rt.Call("p", rt.In(Id("a"), rt.List(Id("b")))),
+				rt.Call("p", rt.In(a(), rt.List(I(7), b()))),
+				rt.Call("p", rt.In(rt.List(Id("a")), rt.List(rt.List(Id("b"))))),
+				rt.Call("p", rt.In(rt.Map(S("m"), Id("a")), rt.List(rt.Map(S("m"), Id("b"))))),
+				rt.Call("p", rt.In(rt.Map(S("m"), Id("a")), rt.List(rt.Map(S("m"), Id("b"), S("z"), I(0))))),
+			}
+			if !d.v2 {
+				// (v2 rejects == between some type pairs at load time: kept to v1)
+				stmts = append(stmts, rt.Call("p", rt.Bin("==", Id("a"), Id("b"))), rt.Call("p", rt.Bin("!=", Id("a"), Id("b"))))
+			}
+			p := &Prog{Scripts: map[string][]*rt.Node{"s.p": stmts}, Main: "s.p", Point: PointSpec{Meas: "m"}}
+			w.Eval()
+			c04Report(w, d, "eq-matrix", p, d.diff(p), "")
+		}
+	}
+}
+
 func c04Run(w *run.Worker) {
 	d := dctx{id: "C04", diff: Differential}
 	c04LenIn(w, d)
+	c04EqMatrix(w, d)
 	c04Reeval(w, d)
 	c04Paths(w, d)
 	c04Alias(w, d)
